@@ -1,9 +1,9 @@
 package main
 
 import (
-	"go/types"
 	"fmt"
 	"go/token"
+	"go/types"
 	"strings"
 
 	"golang.org/x/tools/go/ssa"
@@ -625,10 +625,10 @@ func ruleC12Assoc(w *World, r *Report, h, ies *ssa.Function) {
 
 	// ---- feature helpers
 	type feat struct {
-		fn         string
-		octet      int64
-		mask       int64
-		flag       string // configuration flag that must guard the call ("" = unconditional)
+		fn    string
+		octet int64
+		mask  int64
+		flag  string // configuration flag that must guard the call ("" = unconditional)
 	}
 	feats := []feat{
 		{"pfcpiface.setFTUPFeature", 0, 0x10, ""},
@@ -732,7 +732,6 @@ func ruleC12Assoc(w *World, r *Report, h, ies *ssa.Function) {
 }
 
 func derefArrayLen(t interface{ String() string }) int64 { return -1 }
-
 
 // ruleC12NewPeers: every datagram from an address without a connection creates one and is handled —
 // whatever its type (a Heartbeat Request is answered before any association exists).
